@@ -205,7 +205,12 @@ def line_loop_rules(ctx, rep, cl, require_readlines=False):
     fn = io.fn
     rep.analysed(fn)
     A = ctx.A
-    if len(io.fp.paths) != 1 or len(io.loops) != 1:
+    # several paths are fine when they are the same line loop followed by branches that only decide about DEBUG messages
+    same_loop = (len(io.loops) == len(io.fp.paths) >= 1 and len({id(li_.node) for _, li_ in io.loops}) == 1
+                 and all(sum(1 for e_ in pth_.effects if e_.kind == "loop") == 1 for pth_ in io.fp.paths)
+                 and all(e_.kind != "call" or (e_.a[1][0] == "attr" and e_.a[1][2] in ("debug", "isEnabledFor", "getLogger", "rstrip")) or e_.kind == "loop"
+                         for pth_ in io.fp.paths for e_ in pth_.effects[[i_ for i_, x_ in enumerate(pth_.effects) if x_.kind == "loop"][0] + 1:]))
+    if not same_loop and (len(io.fp.paths) != 1 or len(io.loops) != 1):
         rep.fail(cl + ".one-line-loop", fn.name, "expected a single path with a single loop over the input lines (paths %d, loops %d)" % (len(io.fp.paths), len(io.loops)), W(fn), key=cl + ".one-line-loop|anonymize_io")
         return io, None
     path, li = io.loops[0]
